@@ -210,6 +210,14 @@ def install():
 
             isfile = exists
 
+            @staticmethod
+            def getsize(path):
+                if str(path).startswith("/fake/"):
+                    if path not in WORLD.files:
+                        raise FileNotFoundError(path)
+                    return WORLD.files[path].size
+                return _real_os.path.getsize(path)
+
         class _OS:
             path = _P()
 
@@ -226,6 +234,14 @@ def install():
                     _real_os.remove(path)
 
             unlink = remove
+
+            @staticmethod
+            def stat(path, *a, **k):
+                if str(path).startswith("/fake/"):
+                    if path not in WORLD.files:
+                        raise FileNotFoundError(path)
+                    return types.SimpleNamespace(st_size=WORLD.files[path].size, st_mtime=0, st_mtime_ns=0)
+                return _real_os.stat(path, *a, **k)
 
         disk.os = _OS()
     disk.multiprocessing = types.SimpleNamespace(
